@@ -2,6 +2,7 @@
 import theta_rules as T
 import chains
 import hll_rules
+import generic_lints
 
 
 def run(facts, tier):
@@ -13,7 +14,9 @@ def run(facts, tier):
         ("emptiness/duplicates", T.emptiness_and_duplicates, 3, "hash_and_screen clears is_empty_ before any return; insert only after a failed find"),
         ("canonical chains", lambda fa: chains.obligations(fa, ["theta"]), 11, "typed update overloads follow the cross-language canonicalisation contract"),
         ("probe extent", lambda fa: hll_rules.probe_extent(fa, ("theta", "tuple")), 1, "the resized table is probed with the lg size it was allocated with"),
+        ("rebuild precondition", T.rebuild_precondition, 2, "rebuild() is only called with strictly more than nominal-size entries"),
         ("builder/reset", T.builder_reset, 2, "reset() restores theta through the builder's helper; re-reads follow member resets"),
+        ("duplicate operands", lambda fa: generic_lints.duplicate_conjuncts(fa, ('theta/',)), 2, "no logical chain tests the same operand twice (copy-paste of the wrong peer)"),
     ):
         o = f(facts)
         obs += o
